@@ -585,6 +585,11 @@ def star_regions(tier, order, gname=""):
     boxes = [(c, E3, h) for c in ((0, 0, 0), (H, 0, 0), (0, 0, Fr(5, 16)), (Q, Q, 0))]
     if tier == "quick":
         return [generic] + (lines[:6] if order <= 16 else []) + (planes[:2] + boxes[:2] if order <= 4 else [])
+    if order > 16:
+        # 24..96 operations: a line through a high-symmetry point crosses O(order^2) tolerance cells; the four-line chunks of the smaller groups ran past
+        # 1500 s each (41 timeouts in the first thorough run), and single lines through
+        # (1/2,0,0) still did (Oh); the big groups get the four lines through Gamma, one per case
+        return [generic] + [l for l in lines if l[0] == (0, 0, 0)]
     out = [generic] + lines
     if order <= 4:
         cs = [Fr(i, 4) - H + Fr(1, 8) for i in range(4)]
@@ -625,7 +630,7 @@ def cases(tier, seed):
                 out.append(Case(f"tensor {g} rank={rank} lead={lead} action:{','.join(a)} project:{','.join(p)}", case_tensor,
                                 dict(gname=g, rank=rank, lead=lead, action_kinds=a, project_kinds=p, allpairs=allpairs), timeout=1500))
         regs = star_regions(tier, order, g)
-        big = [r for r in regs if len(r[1]) == 3 and r[0] != "generic"]
+        big = [r for r in regs if (len(r[1]) == 3 or order > 16) and r[0] != "generic"]
         small = [r for r in regs if r not in big]
         for grp in [small[i:i + 4] for i in range(0, len(small), 4)] + [[r] for r in big]:
             nm = "; ".join(f"{c if c == 'generic' else [str(x) for x in c]}+t*{list(ds)} |t|<={h}" for c, ds, h in grp)
